@@ -48,6 +48,7 @@ type Puppet struct {
 }
 
 type K4 struct {
+	TM      gen.TargetManager // the node's TargetManager instance when the harness supplied it
 	Node    gen.Node
 	mu      sync.Mutex
 	puppets map[gen.PID]*Puppet
@@ -260,6 +261,12 @@ func (k *K4) Alive(pid gen.PID) bool {
 }
 
 func (k *K4) Name() gen.Atom { return k.Node.Name() }
+
+func (k *K4) resetPuppets() {
+	k.mu.Lock()
+	k.puppets = map[gen.PID]*Puppet{}
+	k.mu.Unlock()
+}
 
 func (k *K4) NextName(prefix string) gen.Atom {
 	return gen.Atom(fmt.Sprintf("%s_%d", prefix, atomic.AddInt32(&k.seq, 1)))
